@@ -176,6 +176,9 @@ def main():
         chk.add(stable_timestep_function, real_t=prec, dim=3, shape=(2, 2, 2) if chk.quick else (2, 2, 3), precision=prec)
     for kind, sh in (("passive", (3, 4)), ("passive", (3, 3, 4)), ("ns2d", (3, 4)), ("ns3d", (3, 3, 4))):
         chk.add(simulator_timestep_wiring, sim_kind=kind, shape=sh)
+    # simulators of another kind / shape queried earlier in the same process
+    chk.add(simulator_timestep_wiring, sim_kind="ns3d", shape=(3, 3, 4), _earlier=[{"shape": (3, 4, 3)}, {"sim_kind": "passive"}])
+    chk.add(simulator_timestep_wiring, sim_kind="ns2d", shape=(3, 4), _earlier=[{"shape": (4, 3)}, {"sim_kind": "passive", "_real_t": "float32"}])
     chk.add(diffusion_maximum_principle, dim=2, shape=(4, 5), field_type="scalar")
     chk.add(diffusion_maximum_principle, dim=3, shape=(3, 4, 3), field_type="scalar")
     chk.add(diffusion_maximum_principle, dim=3, shape=(3, 3, 4), field_type="vector")
